@@ -50,6 +50,33 @@ Theorem C14_retry_spec : forall budget rs, issue_retryable budget rs = issue_spe
 Proof. exact issue_retryable_spec. Qed.
 Print Assumptions C14_retry_spec.
 
+(* ---------- request bodies across retries (StoreIndex, StoreChunk) ----------
+   [store_payload_log budget payload rs] = (result, requests sent, the body of each request):
+   the callback handed to StoreObject produces the whole payload on EVERY call (StoreIndex starts
+   a fresh pipe fed by Index.WriteTo, StoreChunk a fresh bytes.Reader). *)
+
+(* every attempt carries exactly the payload, and there are between 1 and max(1, ErrorRetry) *)
+Theorem C14_put_every_attempt_carries_payload : forall budget payload rs,
+  let '(ok, n, bodies) := store_payload_log budget payload rs in
+  Forall (fun b => b = payload) bodies /\ length bodies = N.to_nat n /\ 1 <= n <= N.max 1 budget.
+Proof. exact store_payload_bodies. Qed.
+Print Assumptions C14_put_every_attempt_carries_payload.
+
+(* nil is returned iff the first non-retryable answer, within the budget, is 200/201 ... *)
+Theorem C14_put_ok_iff_2xx_within_budget : forall budget payload rs,
+  fst (fst (store_payload_log budget payload rs)) = true <->
+  exists k, k < N.max 1 budget /\ (forall j, j < k -> retry_at rs j = true) /\ is_2xx (rs (N.to_nat k)) = true.
+Proof. exact store_payload_ok_iff. Qed.
+Print Assumptions C14_put_ok_iff_2xx_within_budget.
+
+(* ... and a server that keeps the body of each PUT it answers 2xx then holds exactly the payload;
+   after a reported failure it holds what it held before (never an empty or partial object) *)
+Theorem C14_put_server_object : forall budget payload rs obj,
+  let '(ok, n, bodies) := store_payload_log budget payload rs in
+  stored_after rs 0 bodies obj = if ok then Some payload else obj.
+Proof. exact store_payload_stored. Qed.
+Print Assumptions C14_put_server_object.
+
 (* ---------- status_truthful: what the final response means to the caller ---------- *)
 
 Theorem C14_object_missing_iff_404 : forall budget rs,
@@ -278,6 +305,13 @@ Example C14_example_retry :
    get_object 3 (ex_script [TransportErr; Status 404 []]),
    get_object 0 (ex_script [ShortBody; Status 200 [7]]))
   = ((ObjData [7], 3), (ObjErr, 2), (ObjMissing, 1), (ObjMissing, 2), (ObjErr, 1)).
+Proof. vm_compute. reflexivity. Qed.
+
+(* index PUT with two 503s then 200, budget 3: three requests, each with the whole payload; budget 2: error, two requests *)
+Example C14_example_put_retry :
+  (store_payload_log 3 [1; 2; 3] (ex_script [Status 503 []; Status 503 []; Status 200 []]),
+   store_payload_log 2 [1; 2; 3] (ex_script [Status 503 []; TransportErr; Status 200 []]))
+  = ((true, 3, [[1; 2; 3]; [1; 2; 3]; [1; 2; 3]]), (false, 2, [[1; 2; 3]; [1; 2; 3]])).
 Proof. vm_compute. reflexivity. Qed.
 
 (* one protocol session: present, missing, present -> data, missing, data (before the fix: data, missing, error) *)
